@@ -172,15 +172,24 @@ class Ctx:
                 self.proof_errors.append("theorem %s depends on disallowed axioms %s" % (name, axs))
         if not self.obligations:
             ok = False; self.proof_errors.append("no theorems found in %s" % namespaces)
-        # grep audit over the whole Lean tree (comments stripped)
-        for dp, _, fs in os.walk(os.path.join(LEAN, "AsherahVerif")):
-            for fn in fs:
-                if not fn.endswith(".lean") or "Audit" in dp: continue
-                src = strip_comments(open(os.path.join(dp, fn)).read())
-                for i, l in enumerate(src.splitlines(), 1):
-                    if FORBIDDEN.search(l):
-                        ok = False
-                        self.proof_errors.append("forbidden construct in %s:%d: %s" % (fn, i, l.strip()[:120]))
+        # grep audit over every source file the property's modules import, transitively (comments stripped)
+        seen, todo = set(), list(modules)
+        while todo:
+            m = todo.pop()
+            if m in seen or not m.startswith("AsherahVerif"): continue
+            seen.add(m)
+            fn = os.path.join(LEAN, *m.split(".")) + ".lean"
+            try:
+                src = strip_comments(open(fn).read())
+            except FileNotFoundError:
+                continue
+            for i, l in enumerate(src.splitlines(), 1):
+                mm = re.match(r"\s*import\s+(\S+)", l)
+                if mm: todo.append(mm.group(1))
+                if "Audit" not in fn and FORBIDDEN.search(l):
+                    ok = False
+                    self.proof_errors.append("forbidden construct in %s:%d: %s" % (os.path.basename(fn), i, l.strip()[:120]))
+        self.notes["audited_files"] = len(seen)
         self.trusted += ["Lean 4.33.0 kernel", "axioms used: " + ", ".join(sorted({a for _, axs, _ in self.obligations for a in axs}) or ["none"])]
         return ok
 
